@@ -184,13 +184,18 @@ def _range_trip(c, i):
     if s_[0] == "n" and s_[1] is None and e_[0] == "n":
         return ("n", e_[1], e_[2] - s_[2]), tnt
     # relational: end - start
+    d = None
     if s_[0] == "n" and e_[0] == "n" and s_[1] is not None and e_[1] is not None:
         d = c.st.bound_diff(e_[1], s_[1])
         if d is not None:
-            return ("iv", None, d + e_[2] - s_[2]), tnt
+            d = d + e_[2] - s_[2]
+            if d <= c.an.MAG_LIMIT:
+                return ("iv", None, d), tnt
+    # start >= -2^16: the count is at most end + 2^16, so the end decides (it may be bounded by a relation to a dimension, which
+    # the numeric difference above - often just hi(end) - lo(start) - does not show)
     if si[0] is not None and si[0] >= -65536:
         return (e_ if e_[0] == "n" else ("iv", None, c.st.val_iv(e_)[1])), tnt
-    return ("iv", None, None), tnt
+    return ("iv", None, d), tnt
 
 
 def mag_sinks(c):
